@@ -11,7 +11,7 @@ ASSUME TagsOk
 VARIABLE ty
 Init == ty \in Types
 Next == UNCHANGED ty
-Export == Emit => \A v \in G!Values(ty) :
-             PrintT(ToJson([type |-> ty, val |-> v, enc |-> G!Encode(ty, v), flat |-> G!FlattenV(ty, v)]))
-Count == Cardinality(G!Values(ty)) >= 1
+Export == Emit => \A v \in G!TopValues(ty) :
+             ~G!TreeFits(G!Encode(ty, v)) \/ PrintT(ToJson([type |-> ty, val |-> v, enc |-> G!Encode(ty, v), flat |-> G!FlattenV(ty, v)]))
+Count == Cardinality(G!TopValues(ty)) >= 1
 =============================================================================
